@@ -606,5 +606,35 @@ theorem loadArtifact_storeArtifact {A : Type} (a : Artifact A) : loadArtifact (s
   cases a
   simp [loadArtifact, storeArtifact, loadMeta_storeMeta]
 
+/-! ## listings: the specification of a deterministic emission loop -/
+
+/-- strictly increasing (Go: `sort.Strings` on distinct names) -/
+def StrictSorted (l : List String) : Prop := l.Pairwise (fun x y => strLe x y = true ∧ x ≠ y)
+
+/-- `l` is THE listing of the set `P`: strictly increasing, and a name occurs iff it is in `P` -/
+def ListingOf (P : String → Prop) (l : List String) : Prop := StrictSorted l ∧ ∀ n, n ∈ l ↔ P n
+
+theorem strictSorted_nodup {l : List String} (h : StrictSorted l) : l.Nodup :=
+  List.Pairwise.imp (fun hxy => hxy.2) h
+
+theorem filter_keys_nodup (filter : String → Bool) (syms : List (String × String)) (hnd : (syms.map (·.1)).Nodup) :
+    ((syms.filter fun kv => filter kv.1).map (·.1)).Nodup :=
+  List.Nodup.sublist ((List.filter_sublist (l := syms)).map _) hnd
+
+/-! ## the no-op rebuild -/
+
+section NoopRebuild
+variable {φ : Type} [DecidableEq φ] (cfg : Cfg) (hb : Bytes → φ) (fp : Manifest φ → φ)
+variable {Obj Stored : Type} (compileRel : Rel → Obj) (storeObj : Obj → Stored) (loadObj : Stored → Obj)
+
+/-- `build, build` of one cacheable package: the second build hands out what `tryLoadFromCache` makes of what
+    `saveToCache` kept of the first build's output -/
+theorem served_noop_rebuild (g : Global) (t : PkgT)
+    (hn : (t.data.name != "main") = true) (hkind : cachedKind t.data = true) :
+    served cfg hb fp compileRel storeObj loadObj ⟨g, [t]⟩ [.build {}, .build {}]
+      = some [loadObj (storeObj (compileRel (relevant g t)))] := by
+  simp [served, run, step, State.init, buildProg, buildPkg, lookup, List.find?, hn, hkind]
+
+end NoopRebuild
 
 end LlgoVerif.Cache
